@@ -74,8 +74,20 @@ def header(s: ast.AST):
     return s
 
 
+class InlineBlock(ast.If):
+    """`if True:` block holding the body of an inlined helper; `label` names it for InlineJump"""
+    _fields = ast.If._fields
+    label = ""
+
+
+class InlineJump(ast.Pass):
+    """the helper's `return`: control continues after the InlineBlock with the same label"""
+    label = ""
+
+
 def build(body: List[ast.stmt]) -> CFG:
     g = CFG()
+    blocks: Dict[str, list] = {}
 
     def link(preds, n):
         for p, l in preds:
@@ -89,6 +101,17 @@ def build(body: List[ast.stmt]) -> CFG:
 
     def one(s, preds, loop):
         lh = loop["head"] if loop else None
+        if isinstance(s, InlineBlock):
+            n = g.new(s, "if", lh)
+            link(preds, n)
+            blocks[s.label] = []
+            t = seq(s.body, [(n, True)], loop)
+            return t + blocks.pop(s.label)
+        if isinstance(s, InlineJump):
+            n = g.new(s, "stmt", lh)
+            link(preds, n)
+            blocks[s.label].append((n, None))
+            return []
         if isinstance(s, ast.If):
             n = g.new(s, "if", lh)
             link(preds, n)
@@ -341,7 +364,7 @@ def eval3(e: ast.AST, val: Callable[[ast.AST], Optional[bool]]):
 
 
 def reach_under(g: CFG, val: Callable[[ast.AST], Optional[bool]], start: Optional[int] = None,
-                avoid: Iterable[int] = ()) -> Set[int]:
+                avoid: Iterable[int] = (), no_iter: Iterable[int] = ()) -> Set[int]:
     """Nodes reachable from ENTRY when every branch whose test is decided by `val` is taken that way only."""
     seen: Set[int] = set()
     avoid = set(avoid)
@@ -353,6 +376,8 @@ def reach_under(g: CFG, val: Callable[[ast.AST], Optional[bool]], start: Optiona
         seen.add(n)
         kind, stmt = g.kind[n], g.stmt[n]
         for m, l in g.succ[n]:
+            if l == "iter" and n in no_iter:
+                continue
             if kind == "if" or (kind == "loop" and isinstance(stmt, ast.While)):
                 bv = eval3(stmt.test, val)
                 if kind == "if" and bv is not None and l != bv:
